@@ -54,6 +54,14 @@ def _check_kmer(sh, kmer: bytes, fns, full=True):
 		sh.violation('kmer_to_index_rc', dict(kmer=kmer), exp_rc, got_rc)
 	rc = ck.revcomp(kmer)
 	sh.evals += 1
+	# the names users import: gambit.seq.revcomp / gambit.kmers.revcomp must be the same function of the bytes
+	import gambit.seq as gs
+	for name, fn in (('gambit.seq.revcomp', gs.revcomp), ('gambit.kmers.revcomp', gk.revcomp)):
+		r2 = fn(kmer)
+		sh.evals += 1
+		if r2 != R.ref_revcomp(kmer):
+			sh.violation('revcomp-public-name', dict(seq=kmer, name=name), R.ref_revcomp(kmer), r2)
+			break
 	if rc != R.ref_revcomp(kmer):
 		sh.violation('revcomp', dict(seq=kmer), R.ref_revcomp(kmer), rc)
 	elif ck.revcomp(rc) != kmer:
